@@ -35,3 +35,17 @@ static size_t ref_oer(const struct tval *t, uint8_t *out, size_t cap) {
 }
 static int tv_wf(const struct tval *v) { return v->len <= OCT_HMAX; }
 #define tv_wellformed tv_wf
+
+/* ---- C03: constructed (segmented) OCTET STRING, X.690 8.7.3 ---- */
+#define TV_HAS_VARIANT 1
+struct tvariant { uint8_t seg; uint8_t cut; };
+static int tvar_valid(const struct tvariant *x) { return x->seg <= 1 && x->cut <= OCT_HMAX; }
+static size_t ref_ber_variant(const struct tval *v, const struct tvariant *x, uint8_t *out, size_t cap) {
+    struct rbuf o = { out, 0, cap };
+    if(!x->seg || x->cut > v->len) { der_octets_tagged(&o, CL_UNIV, 4, v->b, v->len); return o.n; }
+    uint8_t body[16]; struct rbuf b = { body, 0, sizeof(body) };
+    der_octets_tagged(&b, CL_UNIV, 4, v->b, x->cut);
+    der_octets_tagged(&b, CL_UNIV, 4, v->b + x->cut, (size_t)(v->len - x->cut));
+    x_constructed(&o, CL_UNIV, 4, body, b.n);
+    return o.n;
+}
